@@ -205,6 +205,8 @@ def eval_case(ctx, case):
 
     if case.get("kind") == "rst_host":
         return eval_rst_host(ctx, case)
+    if case.get("kind") == "renderer_api":
+        return eval_renderer_api(ctx, case)
     C = constructs()
     text, used = build(case)
     res = {}
@@ -346,6 +348,57 @@ def eval_rst_host(ctx, case):
     return True
 
 
+def eval_renderer_api(ctx, case):
+    """The public renderer API (create_md_parser(config, DocutilsRenderer) + options['document']) on a document whose settings switch file
+    insertion off: the switch belongs to the document's settings, whichever entry point rendered it."""
+    import io
+
+    from docutils.frontend import get_default_settings
+    from docutils.utils import new_document
+
+    from myst_parser.config.main import MdParserConfig
+    from myst_parser.mdit_to_docutils.base import DocutilsRenderer
+    from myst_parser.parsers.docutils_ import Parser
+    from myst_parser.parsers.mdit import create_md_parser
+
+    C = constructs()
+    text, used = build(case)
+    file_constructs = [(nm, n) for nm, n in used if C[nm][1] in ("file", "both")]
+    res = {}
+    for file_on in (True, False):
+        settings = get_default_settings(Parser)
+        ws = io.StringIO()
+        settings.warning_stream, settings.halt_level, settings.report_level = ws, 5, 2
+        settings.file_insertion_enabled, settings.raw_enabled = file_on, True
+        doc = new_document(os.path.join(TMP, "doc.md"), settings=settings)
+        md = create_md_parser(MdParserConfig(enable_extensions=EXT, substitutions={"rawsub": "x", "rawsub_inline": "y"}), DocutilsRenderer)
+        md.options["document"] = doc
+        AUDIT.clear()
+        AUDIT_STD.clear()
+        AUDIT.enabled = AUDIT_STD.enabled = True
+        try:
+            md.render(text)
+        except Exception as e:  # noqa: BLE001
+            AUDIT.enabled = AUDIT_STD.enabled = False
+            ctx.count("renderer_api:no_document:" + type(e).__name__)
+            return False
+        opens = [e for e in AUDIT.events + AUDIT_STD.events if e[0] == "open"]
+        AUDIT.enabled = AUDIT_STD.enabled = False
+        res[file_on] = (doc, ws.getvalue(), opens)
+    doc, w, opens = res[True]
+    ctx.count("renderer_api:control:file_content_inserted_when_enabled", sum(1 for nm, n in file_constructs if C[nm][2] in doc.astext()))
+    doc, w, opens = res[False]
+    d = {"text": text, "warnings": w[-1200:], "opens": opens[:5]}
+    if opens:
+        ctx.violation("renderer-api:file-disabled:file-opened", f"{len(opens)} open() of sentinel files through the renderer API with file_insertion_enabled=False on the document, first: {opens[0][1]}", case, d)
+    for nm, n in file_constructs:
+        if C[nm][2] in doc.astext():
+            ctx.violation("renderer-api:file-disabled:file-content-inserted", f"content of the file read by {nm} ({C[nm][2]!r}) is in the document rendered through the renderer API with file_insertion_enabled=False", case, d)
+            break
+    ctx.count("renderer_api_file_disabled_runs")
+    return True
+
+
 def run_shard(ctx):
     R = ctx.rng
     names = sorted(constructs())
@@ -364,6 +417,8 @@ def run_shard(ctx):
                 n += 1
             eval_rst_host(ctx, {"kind": "rst_host", "items": [[nm, "top"]]})
             ctx.case(("rst_host", nm), True)
+            eval_renderer_api(ctx, {"kind": "renderer_api", "items": [[nm, "top"]]})
+            ctx.case(("renderer_api", nm), True)
     ctx.subrun("each_construct_alone", exhaustive=True, constructs=len(names) if ctx.shard == 0 else 0, cases=n)
     nr = 130 if quick else 6000
     for i in range(nr):
@@ -374,6 +429,9 @@ def run_shard(ctx):
         if i % 4 == 0:
             eval_rst_host(ctx, {"kind": "rst_host", "items": items, "suppress": case["suppress"]})
             ctx.case(("rst_host", repr(items)), True)
+        if i % 4 == 2:
+            eval_renderer_api(ctx, {"kind": "renderer_api", "items": items})
+            ctx.case(("renderer_api", repr(items)), True)
         if i < 2:
             ctx.sample(case)
         if (i & 0x7) == 0 and ctx.out_of_time():
